@@ -1,11 +1,18 @@
 From Coq Require Import ZArith List String.
 From DRX Require Import Py.PyBytes Py.Val.
-From DRX Require Model.ScoreIO.
+From DRX Require Model.ScoreIO Model.RiffIO.
 Import ListNotations.
 Open Scope string_scope.
 
 Definition table : list (string * (val -> val)) := [
-  ("vwsc_to_score", Model.ScoreIO.run_vwsc_to_score)
+  ("vwsc_to_score", Model.ScoreIO.run_vwsc_to_score);
+  ("parse_riff", Model.RiffIO.run_parse_riff);
+  ("parse_chunk_id", Model.RiffIO.run_parse_chunk_id);
+  ("riff_lookup", Model.RiffIO.run_riff_lookup);
+  ("find_riff", Model.RiffIO.run_find_riff);
+  ("parse_mmap", Model.RiffIO.run_parse_mmap);
+  ("parse_imap", Model.RiffIO.run_parse_imap);
+  ("enc_movie", Model.RiffIO.run_enc_movie)
 ].
 
 Fixpoint lookup (n : string) (t : list (string * (val -> val))) : option (val -> val) :=
